@@ -110,6 +110,10 @@ func materialise(v goval) (val any, hasIdentity bool) {
 		p := reflect.New(reflect.TypeOf(inner))
 		p.Elem().Set(reflect.ValueOf(inner))
 		return p.Interface(), id
+	case "nilslice":
+		return []string(nil), false
+	case "nilmap":
+		return map[string]int(nil), false
 	case "slice":
 		vals := make([]any, len(v.Es))
 		id := false
@@ -181,6 +185,7 @@ func materialise(v goval) (val any, hasIdentity bool) {
 type dataCase struct {
 	G      goval       `json:"g"`
 	Path   string      `json:"path"`
+	Probe  string      `json:"probe"` // "" print the node | "truth" its truth value through ?: | "len" its length
 	Expect expectation `json:"expect"`
 	Tags   []string    `json:"tags"`
 }
@@ -191,6 +196,12 @@ func dataFamily(raw json.RawMessage) Result {
 		return Result{ID: caseID(raw), Status: "skip", Msg: err.Error()}
 	}
 	src := "{{ d" + c.Path + " }}"
+	switch c.Probe {
+	case "truth":
+		src = "{{ d" + c.Path + " ? \"T\" : \"F\" }}"
+	case "len":
+		src = "{{ d" + c.Path + ".len() }}"
+	}
 	res := Result{ID: fmt.Sprintf("%s with d = %s", src, compactJSON(raw)), Status: "ok", Tags: c.Tags, Stats: map[string]int{}}
 	val, hasID := materialise(c.G)
 	ref, _ := materialise(c.G)
